@@ -239,3 +239,31 @@ def tail_read_after_it_is_complete(ctx: Ctx) -> None:
 share("C08", "C08.R9", tail_read_after_it_is_complete)
 
 share("C09", "C09.R7", whitespace_only_text)  # whether a simple value stays a plain string must not depend on layout whitespace after it
+
+
+@rule("C11.R10")
+def routing_key_and_tail_flag(ctx: Ctx) -> None:
+    """A wildcard's routing qname uses one of its own namespace entries verbatim (only '' and ##tokens are skipped); tail_processed is set only where the tail was stored."""
+    dn = ctx.repo.func("xsdata.formats.dataclass.models.elements:default_namespace")
+    g = build_cfg(dn.node)
+    tests = [t for t in g.nodes if t.kind == "test"]
+    texts = sorted(A(anon(dn, t.ast)) for t in tests)
+    ok = texts == sorted([A("_"), A("_.startswith('#')")])
+    ctx.ob("default_namespace skips only empty entries and ##tokens (a '!ns' entry of ##other IS the wildcard's routing namespace)", ok, at=dn, construct="default namespace filter",
+           msg=f"filter tests are {texts}: a ##other wildcard gets an unqualified routing qname and its elements are re-dispatched to an earlier ##local wildcard (order lost)")
+    init = ctx.repo.func("xsdata.formats.dataclass.models.elements:XmlVar.__init__")
+    ctx.ob("XmlVar.qname = build_qname(default_namespace(namespaces), local_name)", A("_=default_namespace(_);self.qname=build_qname(_,_)") in asrc(init), at=init, construct="var qname", msg="routing qname built differently")
+    bw = ctx.repo.func(f"{PAR}.nodes.element:ElementNode.bind_wild_text")
+    g = build_cfg(bw.node)
+    flags = [g.node_of(st) for st, tgt, v in stores(bw.node) if is_self_attr(tgt, "tail_processed")]
+    lt = [t for t in g.nodes if t.kind == "test" and unparse(t.ast) == "var.list_element"]
+    stored = [n for n in g.stmts() if any(isinstance(c.func, ast.Name) and any(k.arg == "tail" for k in c.keywords) for c in node_calls(n))]
+    ok = len(flags) == 1 and len(lt) == 1 and bool(stored) and g.only_if(flags[0].id, lt[0].id, False) and all(g.must_pass(g.entry, flags[0].id, [x.id for x in stored]) for _ in [0])
+    ctx.ob("bind_wild_text sets tail_processed only on the branch that stored the tail in the generic element (not for list wildcards)", ok, at=bw, construct="tail_processed flag",
+           msg="the flag is set although the list-wildcard branch never stores the tail: ElementNode.bind then skips appending it and the text after the element is lost")
+
+
+def anon(fi, node):
+    from ..model import anon_text
+
+    return anon_text(node, fi.node)
